@@ -374,8 +374,8 @@ func Enc(x any) *Val {
 			out.MK = "other"
 		}
 		out.MVA = rt.Elem().Kind() == reflect.Interface && rt.Elem().NumMethod() == 0
-		for _, k := range rv.MapKeys() {
-			out.M = append(out.M, [2]*Val{Enc(k.Interface()), Enc(rv.MapIndex(k).Interface())})
+		for it := rv.MapRange(); it.Next(); {
+			out.M = append(out.M, [2]*Val{Enc(it.Key().Interface()), Enc(it.Value().Interface())})
 		}
 		return out
 	case reflect.Pointer:
